@@ -229,3 +229,27 @@ func init() {
 		return 0
 	}
 }
+
+// cursor: stdin JSON lines {"types":[...], "n":k}: the real advance() on an arbitrary token-type sequence
+// (tie of Model/Cursor.v to the code).
+func init() {
+	subcmds["cursor"] = func(args []string) int {
+		sc := bufio.NewScanner(os.Stdin)
+		sc.Buffer(make([]byte, 1<<20), 64<<20)
+		for sc.Scan() {
+			var in struct {
+				Types []int `json:"types"`
+				N     int   `json:"n"`
+			}
+			if json.Unmarshal(sc.Bytes(), &in) != nil {
+				continue
+			}
+			toks := make([]token.Token, len(in.Types))
+			for i, t := range in.Types {
+				toks[i] = token.Token{Type: models.TokenType(t), Literal: "x"}
+			}
+			emitJSON(map[string]interface{}{"eof": int(models.TokenTypeEOF), "trace": parser.NewParser().VerifAdvanceTrace(toks, in.N)})
+		}
+		return 0
+	}
+}
